@@ -64,7 +64,10 @@ func c10gen(rng *sx.Rng, names []string) c10str {
 	for i := 0; i < k; i++ {
 		n := sx.Pick(rng, names)
 		var g c10seg
-		switch rng.Intn(12) {
+		switch rng.Intn(13) {
+		case 12:
+			g = c10seg{kind: "lit", n: "tail"}
+			s.raw += "tail"
 		case 0, 1, 2, 3:
 			g = c10seg{kind: "lit", n: sx.Pick(rng, lits)}
 			// a literal directly after $name would extend the identifier: keep a separator
@@ -152,7 +155,7 @@ func init() {
 		for it := 0; it < n; it++ {
 			ci := rng.Chance(40)
 			prefer := rng.Bool()
-			names := []string{"FOO", "BAR", "BAZ", "foo", "Path", "N", "X1"}
+			names := []string{"FOO", "BAR", "BAZ", "foo", "Path", "N", "X1", "TGT", "AL1", "AL2", "AL3", "AL4"}
 			env := &hEnv{m: map[string]string{}, ci: ci}
 			e0 := sx.List{}
 			for k := rng.Intn(4); k > 0; k-- {
@@ -165,9 +168,69 @@ func init() {
 			tbl := map[string]c10str{}
 			blk := sx.List{}
 			used := map[string]bool{}
-			for k := 1 + rng.Intn(6); k > 0; k-- {
+			nEntries := 1 + rng.Intn(6)
+			aliasy := it%4 == 0 // long blocks in which many names are built by expansion and collide
+			if aliasy {
+				nEntries = 5 + rng.Intn(10)
+				// most aliases name the same target, so that many entries are superseded by renames
+				main := sx.Pick(rng, []string{"FOO", "BAR", "N", "TGT"})
+				for _, a := range []string{"AL1", "AL2", "AL3", "AL4"} {
+					t := main
+					if rng.Chance(30) {
+						t = sx.Pick(rng, []string{"FOO", "BAR", "N", "TGT"})
+					}
+					env.Set(a, t)
+					e0 = append(e0, sx.L(sx.A(a), sx.A(t)))
+				}
+			}
+			directed := aliasy && it%8 == 0
+			if directed {
+				// several aliases collapse onto one name (superseding half of the block), then a name built by
+				// expansion equals a LATER entry's name
+				other := "BAZ"
+				env.Set("AL5", other)
+				e0 = append(e0, sx.L(sx.A("AL5"), sx.A(other)))
+				mainName, _ := env.Get("AL1")
+				for _, a := range []string{"AL2", "AL3", "AL4"} {
+					env.Set(a, mainName)
+					e0 = append(e0, sx.L(sx.A(a), sx.A(mainName)))
+				}
+				var raws []string
+				nAl := 3 + rng.Intn(2)
+				for j := 1; j <= nAl; j++ {
+					raws = append(raws, fmt.Sprintf("${AL%d}", j))
+				}
+				pos := rng.Intn(len(raws) + 1)
+				raws = append(raws[:pos], append([]string{mainName}, raws[pos:]...)...)
+				raws = append(raws, "${AL5}", other)
+				for _, raw := range raws {
+					ks := c10str{raw: raw, segs: []c10seg{{kind: "lit", n: raw}}}
+					if strings.HasPrefix(raw, "${") {
+						ks.segs = []c10seg{{kind: "var", n: raw[2 : len(raw)-1]}}
+					}
+					vs := c10str{raw: "val-" + raw[len(raw)/2:], segs: []c10seg{{kind: "lit", n: "val-" + raw[len(raw)/2:]}}}
+					vs.raw = strings.NewReplacer("$", "", "{", "", "}", "").Replace(vs.raw)
+					vs.segs[0].n = vs.raw
+					used[ks.raw] = true
+					tbl[ks.raw], tbl[vs.raw] = ks, vs
+					block = append(block, [2]string{ks.raw, vs.raw})
+					blk = append(blk, sx.L(sx.A(ks.raw), sx.A(vs.raw)))
+				}
+				nEntries = 0
+			}
+			for k := nEntries; k > 0; k-- {
 				var ks c10str
-				if rng.Chance(25) {
+				if aliasy && rng.Chance(55) {
+					a := sx.Pick(rng, []string{"AL1", "AL2", "AL3", "AL4"})
+					if rng.Bool() {
+						ks = c10str{raw: "${" + a + "}", segs: []c10seg{{kind: "var", n: a}}}
+					} else {
+						ks = c10str{raw: "$" + a, segs: []c10seg{{kind: "var", n: a}}}
+					}
+				} else if aliasy && rng.Chance(50) {
+					nm := sx.Pick(rng, []string{"FOO", "BAR", "N", "TGT"})
+					ks = c10str{raw: nm, segs: []c10seg{{kind: "lit", n: nm}}}
+				} else if rng.Chance(25) {
 					ks = c10gen(rng, names)
 				} else {
 					nm := sx.Pick(rng, names)
